@@ -9,6 +9,8 @@ others for all token lists (Lemmas/Argparse*.lean).
 import CnfgenModel.Cli.Argparse
 import Lemmas.ArgparseTotal
 import Lemmas.ArgparseTokens
+import Lemmas.ArgparseRefine
+import Props.C17.Dispatch
 namespace Cnfgen.C17
 open Cnfgen.Cli Cnfgen.Cli.AP Cnfgen.Gen
 
@@ -189,5 +191,44 @@ theorem cluster_sound (s : CliSpec) (pre post : List String) (t os e : String) (
 example : (cliSpecs.find? (fun s => s.kind == "transformation" && s.name == "shuffle")).map
       (fun s => (parseX s ["-pvc"] == parseX s ["-p", "-v", "-c"], (parseX s ["-pvc"]).toOption.map (·.length))) =
     some (true, some 3) := by decide +kernel
+
+/-! ### the extended interpreter agrees with the interpreter of the fragment -/
+
+/-- the option tables of the sub-commands with standard options are what the comparison needs: no option string
+looks like a number or is `-h` / `--help` / `--`; the call templates do not ask for the order of a graph; none
+builds its formula inline -/
+theorem standard_tables_comparable :
+    (cliSpecs.filter (·.standard)).all (fun s => fragOK s && s.templates.all templateOrderFree && !s.inline) = true := by
+  decide +kernel
+
+/-- T-C17.7 REFINEMENT.  For every sub-command with standard options (all handled ones but `php` and the five
+composed) and EVERY command line of the fragment that Cli/Dispatch.lean models: the extended parser makes exactly
+the bindings of the fragment's parser or fails with its CLIError; and whatever `dispatch` answers — library call
+or CLIError — the extended interpreter answers (the tool's own parser permitting).  So `flag_noninterference`,
+`variant_flag_selects_a_variant`, `positional_tokens_no_swap`, `dispatch_total`, `dispatch_error_iff_parser_error`
+are statements about the extended interpreter too. -/
+theorem extended_refines_fragment (s : CliSpec) (hs : s ∈ cliSpecs) (hstd : s.standard = true)
+    (argv : List String) (hf : inFragment s argv = true) :
+    parseX s argv = liftE (parseArgs s argv) ∧
+    ∀ (tool : String) (ord : List String → Nat), topAmbiguous tool s.kind argv = false →
+      (∀ c, dispatchSpec s argv = .ok c → dispatchSpecX tool ord s argv = .ok (.call c)) ∧
+      (dispatchSpec s argv = .error .cliError → dispatchSpecX tool ord s argv = .error .cliError) := by
+  have h := (List.all_eq_true.1 standard_tables_comparable) s (List.mem_filter.2 ⟨hs, hstd⟩)
+  simp only [Bool.and_eq_true, Bool.not_eq_true'] at h
+  exact ⟨parseX_refines s hstd h.1.1 argv hf,
+    fun tool ord htop => dispatchX_refines tool ord s hstd h.1.1 h.1.2 h.2 argv hf htop⟩
+
+/-- … for instance totality: on the fragment the extended interpreter returns a library call or a CLIError
+(`dispatch_total` transported; for ALL token lists see `parser_total_all_tokens`) -/
+theorem dispatch_total_fragment_x (h : HelperSpec) (s : CliSpec) (hspec : specOf h = some s) (hs : s ∈ cliSpecs)
+    (hstd : s.standard = true) (argv : List String) (hf : inFragment s argv = true) (tool : String)
+    (ord : List String → Nat) (htop : topAmbiguous tool s.kind argv = false) :
+    (∃ c, dispatchX tool ord h argv = .ok (.call c)) ∨ dispatchX tool ord h argv = .error .cliError := by
+  have hx : dispatchX tool ord h argv = dispatchSpecX tool ord s argv := by unfold dispatchX; rw [hspec]
+  have ho : dispatch h argv = dispatchSpec s argv := by unfold dispatch; rw [hspec]
+  have hr := (extended_refines_fragment s hs hstd argv hf).2 tool ord htop
+  rcases dispatch_total h s hspec hs hstd argv hf with ⟨c, hc⟩ | he
+  · exact Or.inl ⟨c, by rw [hx]; exact hr.1 c (ho ▸ hc)⟩
+  · exact Or.inr (by rw [hx]; exact hr.2 (ho ▸ he))
 
 end Cnfgen.C17
